@@ -20,7 +20,7 @@ if os.path.exists("/tmp/matrix/summary.txt"):
         p = line.split()
         if p and p[0] != "DONE":
             mat[p[0]] = line.strip()
-for _rf in [f"/tmp/round{_r}/summary.txt" for _r in (2, 3, 4, 5)]:
+for _rf in [f"/tmp/round{_r}/summary.txt" for _r in (2, 3, 4, 5, 6)]:
     if not os.path.exists(_rf):
         continue
     for line in open(_rf):
@@ -31,7 +31,7 @@ for _rf in [f"/tmp/round{_r}/summary.txt" for _r in (2, 3, 4, 5)]:
 NEUTRALISED = {"C12_r5_2": "the fix bbf9036 (names no longer absorb a signed number) removes the ambiguity this grammar rewrite resolved differently: on the fixed tree the change "
                            "no longer alters any translation (its own demo passes); kept for the record, it was not caught before the fix"}
 rows = []
-for rnd_, c, m in [(r, c, m) for r in (1, 2, 3, 4, 5) for c in range(1, 21) for m in (1, 2)]:
+for rnd_, c, m in [(r, c, m) for r in (1, 2, 3, 4, 5, 6) for c in range(1, 21) for m in (1, 2)]:
     if True:
         sid = f"C{c:02d}_{m}" if rnd_ == 1 else f"C{c:02d}_r{rnd_}_{m}"
         src = f"/tmp/out_C{c:02d}/mut{m}" if rnd_ == 1 else f"/tmp/out{rnd_}_C{c:02d}/mut{m}"
